@@ -34,13 +34,13 @@ MANIFEST = {
 }
 PROPERTY_FILES = ['Properties/C14.v']
 REFUTED_FILES = ['Refuted/C14.v']
-MODEL_FILES = ['SF/Missing.v', 'SF/MissingCheck.v']
+MODEL_FILES = ['Gen/Gen_c14.v', 'SF/Missing.v', 'SF/MissingCheck.v']
 TRANSLATED = ['DTYPE_INEXACT_KINDS', 'DTYPE_NAT_KINDS']
 IMPORTS = 'Require Import SF.Prelude SF.Value SF.Dtype SF.Missing SF.MissingCheck.'
 RULE = ('kernel strata: util.binary_transition on EVERY Boolean vector of length <= 8 (quick) / 11 (thorough) and per line of every 2-D Boolean array of the listed shapes; '
         'util.slices_from_targets on every Boolean vector of length <= 6 / 9 x direction x limit 0..3, all called directly. '
         'api strata, exhaustive: Series (float / object-None / object-NaN / datetime64[D]) every missing pattern of length <= 5 / 7 x every operation x limit 0..n; '
-        'Frames 1 x n float columns (n <= 4 quick, <= 5 thorough, 1 x 6 with limits 1,2) every pattern x EVERY block layout (zoo.layouts_for) x limit 0..n x forward/backward on axis 1; '
+        'Frames 1 x n float columns (n <= 4 quick, <= 5 thorough, 1 x 6 with limit 2) every pattern x EVERY block layout (zoo.layouts_for) x limit 0..n x forward/backward on axis 1; '
         '2 x 3 (thorough also 2 x 4, 3 x 3) every pattern x every layout x limits x directions x both axes + leading/trailing; mixed frames (float/object/datetime between int/bool/str '
         'columns) every pattern x every layout x all operations; 2 x 2 x label sub/supersets for fillna(Frame); 3 cells x label subsets for fillna(Series). '
         'Then a seeded sample of 1 x 5 (quick) and a seeded random stream of frames up to 4 x 8 with random kinds/layout/limit, and 8 malformed calls. '
@@ -54,6 +54,81 @@ EXHAUSTIVE = {'quick': True, 'thorough': True}
 FINDING_BFILL = 'C14-bfill-axis1-bridge-count'
 FINDING_DROPNA = 'C14-dropna-axis1-single-1d-block'
 FINDING_DTNS = 'C14-dt64ns-object-cast'
+
+
+# ---------------------------------------------------------------------------------------------- decisions read from the source
+def source_decisions(repo):
+    """Fail-closed extraction (ast) of two decisions of static_frame/core/type_blocks.py that the implementation models are parameterised by:
+      bwd_count_from_first -- in TypeBlocks._fillna_directional_axis_1, which yielded slice sets `bridging_count[i]` after the in-block fill:
+                              the loop variable `target_slice` (the LAST yielded slice: pinned code, finding C14-bfill-axis1-bridge-count) or
+                              `edge_slice`, assigned under `if directional_forward or edge_slice is None` (the first slice when walking backward);
+      dropna_1d_reshaped   -- in TypeBlocks.dropna_to_keep_locations, whether a 1-D consolidated isna array is used as is (`to_drop = unified`:
+                              pinned code, finding C14-dropna-axis1-single-1d-block) or reshaped to one column first.
+    Any other shape raises: the models no longer describe the code."""
+    import ast
+    import os
+    with open(os.path.join(repo, 'static_frame/core/type_blocks.py')) as fh:
+        tree = ast.parse(fh.read())
+    cls = next(n for n in tree.body if isinstance(n, ast.ClassDef) and n.name == 'TypeBlocks')
+    fns = {n.name: n for n in cls.body if isinstance(n, ast.FunctionDef)}
+
+    def src(n):
+        return ast.unparse(n)
+
+    f = fns['_fillna_directional_axis_1']
+    names = []
+    for n in ast.walk(f):
+        if isinstance(n, ast.Assign) and len(n.targets) == 1 and src(n.targets[0]) == 'bridging_count[i]':
+            v = src(n.value)
+            if not (v.startswith('len(range(*') and v.endswith('.indices(length)))')):
+                raise ValueError(f'unexpected bridging_count[i] assignment: {v}')
+            names.append(v[len('len(range(*'):-len('.indices(length)))')])
+    if names == ['target_slice']:
+        cf = False
+    elif names == ['edge_slice']:
+        guards = [src(n.test) for n in ast.walk(f) if isinstance(n, ast.If) and any(src(b) == 'edge_slice = target_slice' for b in n.body)]
+        if guards != ['directional_forward or edge_slice is None']:
+            raise ValueError(f'edge_slice is set under an unexpected condition: {guards}')
+        cf = True
+    else:
+        raise ValueError(f'bridging_count[i] is set from {names}')
+    loops = [n for n in ast.walk(f) if isinstance(n, ast.For) and src(n.target) == '(target_slice, value)' and 'slices_from_targets' in src(n.iter)]
+    if len(loops) != 1:
+        raise ValueError('expected exactly one loop over slices_from_targets in _fillna_directional_axis_1')
+
+    g = fns['dropna_to_keep_locations']
+    text = src(g)
+    if 'to_drop = unified' in text and 'unified.ndim == 2' in text and 'reshape' not in text:
+        reshaped = False
+    elif 'to_drop = unified' not in text and 'if unified.ndim == 1:' in text and 'unified = unified.reshape(unified.shape[0], 1)' in text:
+        reshaped = True
+    else:
+        raise ValueError('dropna_to_keep_locations has an unexpected shape')
+    if 'condition_axis = 0 if axis else 1' not in text or 'to_drop = condition(unified, axis=condition_axis)' not in text:
+        raise ValueError('dropna_to_keep_locations: condition axis computation changed')
+    return {'bwd_count_from_first': cf, 'dropna_1d_reshaped': reshaped}
+
+
+def generate(repo):
+    d = source_decisions(repo)
+    text = ('(* GENERATED by tools/sfv/props/c14.py (generate) from /repo/static_frame/core/type_blocks.py -- do not edit; regenerated on every run. *)\n'
+            'Require Import SF.Prelude.\n\n'
+            '(* TypeBlocks._fillna_directional_axis_1: backward, the bridging count leaving a 2-D block comes from the FIRST yielded slice *)\n'
+            f'Definition bwd_count_from_first : bool := {lit.b(d["bwd_count_from_first"])}.\n\n'
+            '(* TypeBlocks.dropna_to_keep_locations: a 1-D consolidated isna array is reshaped to one column before the condition is applied *)\n'
+            f'Definition dropna_1d_reshaped : bool := {lit.b(d["dropna_1d_reshaped"])}.\n')
+    return {'Gen/Gen_c14.v': text}
+
+
+_DECISIONS = None
+
+
+def decisions():
+    global _DECISIONS
+    if _DECISIONS is None:
+        from ..core import REPO
+        _DECISIONS = source_decisions(REPO)
+    return _DECISIONS
 
 # ---------------------------------------------------------------------------------------------- values
 EPOCH = np.datetime64('2020-01-01', 'D')
@@ -277,9 +352,13 @@ def series_fill_container(ctx, kind, miss, other_labels, other_miss, tag):
     a = column(kind, 0, miss)
     labels = [f'k{i}' for i in range(n)]
     s = sf.Series(a, index=labels)
-    ov = np.empty(len(other_labels), dtype=DTYPES[kind])
-    for i, (lab, ms) in enumerate(zip(other_labels, other_miss)):
-        ov[i] = MISSING[kind] if ms else present_value(kind, 50 + i, 7)
+    if other_miss == 'int':
+        # a container that can never hold a missing marker: the reindex fill value used internally is then 0, and must not leak
+        ov = np.array([700 + i for i in range(len(other_labels))], dtype=np.int64)
+    else:
+        ov = np.empty(len(other_labels), dtype=DTYPES[kind])
+        for i, (lab, ms) in enumerate(zip(other_labels, other_miss)):
+            ov[i] = MISSING[kind] if ms else present_value(kind, 50 + i, 7)
     other = sf.Series(ov, index=other_labels)
     out = s.fillna(other).values
     ctx.count(f'series-container:{kind}:len{n}')
@@ -307,8 +386,10 @@ def series_cases(ctx):
         for miss in itertools.product((False, True), repeat=3):
             for r in range(0, len(pool) + 1):
                 for labs in itertools.combinations(pool, r):
-                    for om in ([False] * r, [i == 0 for i in range(r)]):
+                    for om in ([False] * r, [i == 0 for i in range(r)], 'int'):
                         if r == 0 and om:
+                            continue
+                        if om == 'int' and kind == 'D':
                             continue
                         yield from series_fill_container(ctx, kind, miss, labs, om, {'container': 'Series'})
 
@@ -344,7 +425,7 @@ def frame_directional(ctx, kinds, mask, layout, limits, axes=(1,), dirs=(True, F
                 out = frame_cols(fn(limit, axis=axis))
                 ctx.count(f'frame-dir:axis{axis}:{nrows}x{len(kinds)}')
                 tags = {'op': 'directional', 'fwd': fwd, 'axis': axis, 'container': 'Frame'}
-                if axis == 1 and not fwd and in_bfill_class(mask, layout, limit):
+                if axis == 1 and not fwd and not decisions()['bwd_count_from_first'] and in_bfill_class(mask, layout, limit):
                     tags['finding'] = FINDING_BFILL
                 if axis == 1:
                     m = f'chk_dir_axis1_M {lit.b(fwd)} {lit.z(limit)} {nat(nrows)} {layout_lit(layout)} {inp} {cols_lit(out)}'
@@ -402,9 +483,23 @@ def frame_simple(ctx, kinds, mask, layout):
                    py_fail=None if lit.labels(c.index) == want_labels else f'count(axis={axis}) is labelled {lit.labels(c.index)}',
                    tags={'op': 'count', 'axis': axis, **tag}, nontrivial=nt)
         for use_any in (False, True):
+            # kernel level: the keep mask TypeBlocks hands to Frame._extract
+            rk, ck = f._blocks.dropna_to_keep_locations(axis=axis, condition=np.any if use_any else np.all)
+            keep = ck if axis == 1 else rk
+            single1d = tuple(layout) == ((1, False),)
+            ktags = {'kernel': 'dropna_to_keep_locations', 'op': 'dropna', 'axis': axis}
+            if axis == 1 and single1d and not decisions()['dropna_1d_reshaped']:
+                ktags['finding'] = FINDING_DROPNA
+            yield Case('kernel:dropna_to_keep_locations',
+                       desc_of(kinds, mask, layout, f'f._blocks.dropna_to_keep_locations(axis={axis}, condition=np.{"any" if use_any else "all"})',
+                               [bool(x) for x in keep]),
+                       m=f'chk_dropna_keep_M {lit.b(axis == 1)} {lit.b(use_any)} {nat(nrows)} {lit.b(single1d)} {inp} {blist(keep)}',
+                       s=f'chk_dropna_keep_S {lit.b(axis == 1)} {lit.b(use_any)} {nat(nrows)} {inp} {blist(keep)}',
+                       py_fail=None if (rk is None) == (axis == 1) and (ck is None) == (axis == 0) else 'wrong key is None',
+                       tags=ktags, nontrivial=nt)
             call = f'f.dropna(axis={axis}, condition=np.{"any" if use_any else "all"})'
             dtags = {'op': 'dropna', 'axis': axis, 'any': use_any, **tag}
-            if axis == 1 and tuple(layout) == ((1, False),):
+            if axis == 1 and tuple(layout) == ((1, False),) and not decisions()['dropna_1d_reshaped']:
                 dtags['finding'] = FINDING_DROPNA     # input class by construction: one column held as a single 1-D block, axis=1
             try:
                 d = f.dropna(axis=axis, condition=np.any if use_any else np.all)
@@ -439,9 +534,12 @@ def frame_fill_container(ctx, kinds, mask, layout, oindex, ocolumns, omiss):
     cols, f, index, columns = frame_of(kinds, mask, layout)
     ocols = []
     for j, cl in enumerate(ocolumns):
-        a = np.empty(len(oindex), dtype=float)
-        for i in range(len(oindex)):
-            a[i] = np.nan if omiss(i, j) else 1000.0 + 10 * j + i
+        if omiss == 'int':
+            a = np.array([1000 + 10 * j + i for i in range(len(oindex))], dtype=np.int64)
+        else:
+            a = np.empty(len(oindex), dtype=float)
+            for i in range(len(oindex)):
+                a[i] = np.nan if omiss(i, j) else 1000.0 + 10 * j + i
         ocols.append(a)
     if ocols:
         other = sf.Frame.from_items(zip(ocolumns, ocols), index=oindex)
@@ -470,27 +568,40 @@ def frame_cases(ctx):
         kinds = ['F'] * n
         for layout in layouts(kinds):
             for mask in masks(1, kinds):
-                yield from frame_directional(ctx, kinds, mask, layout, range(0, n + 1))
+                yield from frame_directional(ctx, kinds, mask, layout, range(0, (min(n, 3) if quick else n) + 1))
     if quick:
         # 1 x 5: a seeded sample of (pattern, layout, limit, direction)
         kinds = ['F'] * 5
         lays = layouts(kinds)
-        for _ in range(ctx.n(1500, 0)):
+        for _ in range(ctx.n(1000, 0)):
             mask = [[rng.random() < 0.5] for _ in kinds]
             yield from frame_directional(ctx, kinds, mask, rng.choice(lays), (rng.randint(0, 4),), dirs=(rng.random() < 0.5,))
     else:
-        # 1 x 6: every pattern x every layout, limits 1 and 2 (the interesting ones for 6 cells), both directions
+        # 1 x 6: every pattern x every layout, limit 2, both directions (the smallest shape on which the backward finding shows)
         kinds = ['F'] * 6
         for layout in layouts(kinds):
             for mask in masks(1, kinds):
-                yield from frame_directional(ctx, kinds, mask, layout, (1, 2))
+                yield from frame_directional(ctx, kinds, mask, layout, (2,))
     # (2) two/three rows (the whole-block fast path depends on the other rows), all patterns, all layouts
+    kinds = ['F'] * 2
+    for layout in layouts(kinds):
+        for mask in masks(2, kinds):
+            yield from frame_directional(ctx, kinds, mask, layout, (0, 1, 2), axes=(0, 1))
+            yield from frame_sided(ctx, kinds, mask, layout)
     kinds = ['F'] * 3
     for layout in layouts(kinds):
         for mask in masks(2, kinds):
-            yield from frame_directional(ctx, kinds, mask, layout, (0, 1, 2) if quick else (0, 1, 2, 3), axes=(1,))
-            yield from frame_directional(ctx, kinds, mask, layout, (1,) if quick else (0, 1, 2), axes=(0,))
-            yield from frame_sided(ctx, kinds, mask, layout)
+            yield from frame_directional(ctx, kinds, mask, layout, (0, 1) if quick else (0, 1, 2, 3), axes=(1,))
+            if not quick:
+                yield from frame_directional(ctx, kinds, mask, layout, (0, 1, 2), axes=(0,))
+            yield from frame_sided(ctx, kinds, mask, layout, axes=(1,) if quick else (0, 1))
+    if quick:
+        # 2 x 4, every pattern, limit 1, four representative layouts: stale per-row state in a block that takes the slow path
+        # only because ANOTHER row has a missing cell needs >= 2 rows and >= 4 columns
+        kinds = ['F'] * 4
+        for layout in (((1, False),) * 4, ((1, True),) * 4, ((1, False), (2, True), (1, False)), ((2, True), (2, True))):
+            for mask in masks(2, kinds):
+                yield from frame_directional(ctx, kinds, mask, layout, (1,), axes=(1,))
     if not quick:
         kinds = ['F'] * 4
         for layout in layouts(kinds):
@@ -505,7 +616,7 @@ def frame_cases(ctx):
     for mix in mixes:
         kinds = list(mix)
         for layout in layouts(kinds):
-            for mask in masks(2 if len(mix) == 3 else 1, kinds):
+            for mask in masks(2 if (len(mix) == 3 and (not quick or mix == 'IFO')) else 1, kinds):
                 yield from frame_directional(ctx, kinds, mask, layout, (0, 1) if quick else (0, 1, 2), axes=(0, 1))
                 yield from frame_sided(ctx, kinds, mask, layout)
                 yield from frame_simple(ctx, kinds, mask, layout)
@@ -518,6 +629,7 @@ def frame_cases(ctx):
                 yield from frame_fill_container(ctx, kinds, mask, layout, oi, oc, lambda i, j: False)
                 if oi and oc:
                     yield from frame_fill_container(ctx, kinds, mask, layout, oi, oc, lambda i, j: (i + j) % 2 == 0)
+                    yield from frame_fill_container(ctx, kinds, mask, layout, oi, oc, 'int')
     # (5) the known finding, witnessed in every run (inputs in its class by construction)
     for miss_row, limit in (((True, True, True, False, True, False), 2), ((True, True, False, True, True, False), 2),
                             ((True, True, True, False, True, True, False), 3)):
